@@ -169,6 +169,7 @@ CONTRACT += '''
 //@   ensures (normal || panics) ==> m.mx.held == 0
 //@   ensures normal && result == nil ==> (forall i :: 0 <= i && i < len(m.order) ==> app(fn, m.order[i], m.data[m.order[i]]) == nil)
 //@   ensures normal && result != nil ==> (exists p :: 0 <= p && p < len(m.order) && result == app(fn, m.order[p], m.data[m.order[p]]) && (forall i :: 0 <= i && i < p ==> app(fn, m.order[i], m.data[m.order[i]]) == nil))
+//@   ensures panics ==> (exists p :: 0 <= p && p < len(m.order) && apppanics(fn, m.order[p], m.data[m.order[p]]) && pv == apppv(fn, m.order[p], m.data[m.order[p]]))
 //@   loop 0 invariant -1 <= rangeindex && rangeindex < len(m.order) && m.mx.held == 1
 //@   loop 0 invariant forall i :: 0 <= i && i <= rangeindex ==> app(fn, m.order[i], m.data[m.order[i]]) == nil
 //@   loop 0 decreases len(m.order) - rangeindex
